@@ -1586,6 +1586,8 @@ var shapeTargets = []shapeTarget{
 	{"internal/scheduler", "effectiveClass", "HybridScheduler", "body-stmts", "sched_effective_class"},
 	{"internal/scheduler", "pendingByClass", "HybridScheduler", "if-all", "sched_pending_small_ifs"},
 	{"internal/scheduler", "pendingWeighted", "HybridScheduler", "if-all", "sched_pending_weighted_ifs"},
+	// handleFileBegin: the resume report (which sets verifyAsked) is built before the file is registered for the readers (Model/Begin)
+	{"internal/transfer", "RecvManifestMultiStream", "", "seq:info, err := buildResumeInfo(state)|stateByKey[key] = state|fileReady.signal(key)", "begin_order"},
 	// which stored metadata a beginning file resumes from (Model/Entry)
 	{"internal/transfer", "RecvManifestMultiStream", "", "if-cond-has:statErr", "entry_stat_test"},
 	{"internal/transfer", "RecvManifestMultiStream", "", "args:os.Remove", "entry_removes"},
